@@ -38,6 +38,15 @@ Four monitor groups, all on the real classes through their public API only:
              and after replacing the profile (equal / different segment count; 'laser' cases favour length changes that keep the
              count) the Laser's segments, read from each segment's transform, must tile [0, laser_length] of the current profile
              and equal those of a freshly built Laser (keys tiling:segment-placement-after:<op>).
+  rejected : ~12 % of the history operations assign a value outside the parameter's domain (zero, negative, NaN, inf, wrong
+             type, min >= max, fractional bins, zero polarisation vector) through EVERY setter.  If the setter raises AND no
+             object can be constructed with that value either, the assignment is a refusal: all observables and reported
+             parameters must equal the pre-assignment state (keys rejected:<Class>.<setter>:state-changed:<obs> /
+             :reported-parameter-changed:<accessor>) and every later legal setter must work as on a fresh object
+             (rejected:<Class>.<setter>:later-legal-setter-raises, blamed on the refusal that corrupted the state).  A value
+             the setter accepts, or that the constructor accepts too (NaN / inf: nothing refuses those), ends the history
+             unjudged and counted - the statement does not say which values must be refused.  A legal assignment that raises
+             without a corrupting refusal before it has key history:<Class>.<setter>:legal-assignment-raises:<Exception>.
   formula  : on every profile object judged by quad / history (all three construction paths) get_energy_density at fixed
              multiples of the documented sigmas against the normalised Gaussian that the documented standard deviations
              and the stated integral define (sigma_z = c*tau for any tau, 1 ns or 1 s; Gaussian beam in the waist plane only).
@@ -76,7 +85,8 @@ ASSUMPTIONS = [
     "double-precision wavelengths ((i+10) ulp), which is included in the computed tolerance",
     "the unit-power densities are the documented ones: 1/(max-min) on [min,max] (ConstantSpectrum), N(mean, stddev) "
     "(GaussianSpectrum); 'range spans the line' = [min,max] contains mean +- 9 stddev (Gaussian), always (constant)",
-    "setter values are valid (positive where the class demands it); rejected values are outside the quantifier",
+    "a refused assignment (setter raises and the constructor refuses the value too) is part of a history: afterwards the object "
+    "must still be the pre-assignment object; which out-of-domain values have to be refused is not judged",
     "width parameters mean what the class documentation says: stddev_x / stddev_y / stddev_waist (at the waist) are the "
     "standard deviations of the transverse Gaussian, c * pulse_length that of the trivariate pulse along z; the Gaussian-beam "
     "divergence (Rayleigh range) is NOT judged because documentation and code use different conventions",
